@@ -28,7 +28,11 @@ COMPILE_OPS = [
 MATCH_OPS = [('select', 'p:lang(en)', None), ('match', ':default', None), ('filter', ':nth-child(2)', None), ('closest', 'div:not(.x)', None),
              ('select', ':--c', 'C'), ('purge', '', None),
              # parentless elements (two different ones: any scratch object shared between calls shows up)
-             ('match-parentless-1', 'div:first-child', None), ('match-parentless-2', 'p:nth-last-child(1)', None), ('select-parentless-1', ':nth-child(2)', None)]
+             ('match-parentless-1', 'div:first-child', None), ('match-parentless-2', 'p:nth-last-child(1)', None), ('select-parentless-1', ':nth-child(2)', None),
+             # range inputs: an ordinary date, and one whose year is longer than the interpreter's int/str conversion limit (anything the library
+             # does to process-wide interpreter settings while handling it is shared by all threads)
+             ('match-input-1', ':in-range', None), ('match-input-2', ':out-of-range', None), ('match-input-3', ':in-range', None),
+             ('cmatch-input-1', ':in-range', None), ('cmatch-input-2', ':out-of-range', None), ('cmatch-input-3', ':in-range', None)]
 WARM = 600      # distinct names pushed through util.lower before every execution: its cache (bound 512) is full, as in a long-lived process
 
 
@@ -49,6 +53,12 @@ def op_callable(sv, op, doc):
     if kind.endswith(('-parentless-1', '-parentless-2')):
         target = PARENTLESS[kind[-1]]
         return lambda: getattr(sv, kind.split('-')[0])(pat, target)
+    if '-input-' in kind:
+        target = INPUTS[kind[-1]]
+        if kind.startswith('cmatch'):
+            c = sv.compile(pat)          # compiled here, outside the scheduled threads: the threads only match (short enough for two preemptions)
+            return lambda: c.match(target)
+        return lambda: sv.match(pat, target)
     target = {'select': doc, 'match': els[3], 'filter': els[0], 'closest': els[5]}[kind]
     return lambda: getattr(sv, kind)(pat, target, custom=custom)
 
@@ -59,6 +69,23 @@ def _parentless():
 
 
 PARENTLESS = _parentless()
+BIG = '9' * 4301
+INPUTS = {'1': T.build_detached(('e', 'input', (('type', 'date'), ('min', '2020-01-01'), ('value', '2020-02-29')), ())),
+          '2': T.build_detached(('e', 'input', (('type', 'month'), ('max', BIG + '-01'), ('value', BIG + '-02')), ())),
+          '3': T.build_detached(('e', 'input', (('type', 'date'), ('min', '2020-01-01'), ('value', BIG + '-01-01')), ()))}
+
+
+def interpreter_state():
+    """Process-wide interpreter settings a library call has no business leaving changed."""
+    import sys, decimal, locale
+    return (sys.get_int_max_str_digits(), sys.getrecursionlimit(), sys.getswitchinterval(), decimal.getcontext().prec, locale.setlocale(locale.LC_ALL))
+
+
+def restore_interpreter_state(st):
+    import sys, decimal
+    sys.set_int_max_str_digits(st[0])
+    sys.setrecursionlimit(st[1])
+    decimal.getcontext().prec = st[3]
 
 
 def observe(sv, op, r, doc):
@@ -96,13 +123,67 @@ def reset(sv):
         pass
 
 
+def make_watch(sv):
+    """Cheap digest of the shared state visible from outside: every lru_cache in the package (hits, misses, size), the sizes of module-level and
+    default-argument containers, class-level containers, and the interpreter settings.  Found by scanning the loaded modules, so caches or scratch
+    containers a change introduces are watched too."""
+    import sys
+    import types
+    caches, boxes = [], []
+    seen = set()
+    mods = [m for n, m in sorted(sys.modules.items()) if (n == 'soupsieve' or n.startswith('soupsieve.')) and m is not None]
+
+    def box(x):
+        if isinstance(x, (dict, list, set, bytearray)) and id(x) not in seen:
+            seen.add(id(x))
+            boxes.append(x)
+
+    def func(f):
+        for dflt in (getattr(f, '__defaults__', None) or ()) + tuple((getattr(f, '__kwdefaults__', None) or {}).values()):
+            box(dflt)
+    for m in mods:
+        for name, v in list(vars(m).items()):
+            if name.startswith('__'):
+                continue
+            if hasattr(v, 'cache_info') and callable(getattr(v, 'cache_info')):
+                if id(v) not in seen:
+                    seen.add(id(v))
+                    caches.append(v)
+                func(getattr(v, '__wrapped__', None))
+            elif isinstance(v, types.FunctionType):
+                func(v)
+            elif isinstance(v, type) and getattr(v, '__module__', '').startswith('soupsieve'):
+                for an, av in list(vars(v).items()):
+                    if isinstance(av, types.FunctionType):
+                        func(av)
+                    elif hasattr(av, 'cache_info') and id(av) not in seen:
+                        seen.add(id(av))
+                        caches.append(av)
+                    elif not an.startswith('__'):
+                        box(av)
+            else:
+                box(v)
+
+    infos = [c.cache_info for c in caches]
+    g1, g2 = sys.get_int_max_str_digits, sys.getrecursionlimit
+
+    def watch():
+        return [f() for f in infos], [len(b) for b in boxes], g1(), g2()
+    watch.caches, watch.boxes = len(caches), len(boxes)
+    return watch
+
+
 class Harness:
     def __init__(self, sv, ops, opcode=False):
         self.sv = sv
+        self.watch = make_watch(sv)
+        self.hot = set()
+        self.learn = True
         self.ops = ops
         self.doc = make_doc()
         self.trace_prefix = os.path.join(os.path.dirname(os.path.abspath(sv.__file__)), '')
         self.opcode_functions = ('selector_iter', 'match', 'get_name') if opcode else ()
+        self.base_state = interpreter_state()
         self.solo = []
         for op in ops:
             reset(sv)
@@ -117,6 +198,13 @@ class Harness:
                 self.fresh[(op[1], op[2])] = self.fresh_parse(op)
         self.outcomes = {}
         self.replayed = 0
+        # learning phase: the two (three) executions without any preemption, one per starting thread, with the shared-state digest sampled at
+        # every line; afterwards the writers are known by code location and sampling is switched off
+        for first in range(len(ops)):
+            self.run([first])
+        self.watch = None
+        self.learn = False
+        self.hot_points = sum(1 for x in self.run([]).hot if x)
 
     def fresh_parse(self, op):
         sv = self.sv
@@ -135,7 +223,8 @@ class Harness:
     def run(self, prefix):
         sv = self.sv
         reset(sv)
-        s = sched.Scheduler([op_callable(sv, op, self.doc) for op in self.ops], prefix, self.trace_prefix, self.opcode_functions)
+        s = sched.Scheduler([op_callable(sv, op, self.doc) for op in self.ops], prefix, self.trace_prefix, self.opcode_functions,
+                            watch=self.watch, hot=self.hot, learn=self.learn)
         ex = s.run()
         ex.results = [observe(sv, op, r, self.doc) for op, r in zip(self.ops, ex.results)]
         if s.divergence:
@@ -150,6 +239,10 @@ class Harness:
                 except Exception as e:
                     post.append('raise:' + type(e).__name__)
         ex.results.append(('cache-after', post))
+        st = interpreter_state()
+        ex.results.append(('interpreter-state', st == self.base_state, () if st == self.base_state else (self.base_state, st)))
+        if st != self.base_state:
+            restore_interpreter_state(self.base_state)
         return ex
 
     def check(self, ex):
@@ -168,6 +261,8 @@ class Harness:
         for r in ex.results[n:]:
             if r[0] == 'divergence':
                 return {'kind': 'replay-divergence'}, r[1]
+            if r[0] == 'interpreter-state' and not r[1]:
+                return {'kind': 'interpreter-state-left-changed'}, f'after the schedule process-wide interpreter settings differ: before {r[2][0]}, after {r[2][1]} (int/str digit limit, recursion limit, switch interval, decimal precision, locale)'
             if r[0] == 'cache-after' and not all(x is True for x in r[1]):
                 return {'kind': 'wrong-object-left-in-cache'}, f'after the schedule, compiling again from the cache gives {r[1]} (True = equals a fresh parse)'
         return None
@@ -178,10 +273,15 @@ def pairs(tier):
     if tier == 'quick':
         # unordered pairs: which thread starts is itself a (free) scheduling choice, so (a, b) and (b, a) explore the same schedules
         for a, b in itertools.combinations_with_replacement(range(len(COMPILE_OPS)), 2):
+            if b == 7 and a < 5:
+                continue        # the nested custom alias is the longest compile: paired with the plain pattern, the other alias and itself (thorough: with all)
             out.append(((COMPILE_OPS[a], COMPILE_OPS[b]), 1, False))
-        for m in MATCH_OPS:
+        for m in MATCH_OPS[:9]:
             out.append(((m, COMPILE_OPS[0]), 1, False))
             out.append(((m, m), 1, False))
+        I = MATCH_OPS[9:]
+        for a, b in ((0, 0), (2, 2), (3, 3), (4, 4), (5, 5), (5, 3)):
+            out.append(((I[a], I[b]), 1, False))
         out.append(((MATCH_OPS[0], MATCH_OPS[1]), 1, False))
         out.append(((MATCH_OPS[4], COMPILE_OPS[7]), 1, False))
         out.append(((MATCH_OPS[6], MATCH_OPS[7]), 1, False))
@@ -190,7 +290,9 @@ def pairs(tier):
     for a, b in itertools.product(range(len(COMPILE_OPS)), repeat=2):
         out.append(((COMPILE_OPS[a], COMPILE_OPS[b]), 1, False))
         out.append(((COMPILE_OPS[a], COMPILE_OPS[b]), 1, True))        # opcode granularity in the tokenizer
-    for a, b in itertools.product(MATCH_OPS, MATCH_OPS + COMPILE_OPS[:3] + COMPILE_OPS[6:]):
+    for a, b in itertools.product(MATCH_OPS[:9], MATCH_OPS[:9] + COMPILE_OPS[:3] + COMPILE_OPS[6:]):
+        out.append(((a, b), 1, False))
+    for a, b in itertools.product(MATCH_OPS[9:], MATCH_OPS[9:] + COMPILE_OPS[:1] + MATCH_OPS[:2]):
         out.append(((a, b), 1, False))
     core = [0, 1, 5]        # bound 2 costs the square of the number of scheduling points: the short compiles only
     for a, b in itertools.combinations_with_replacement(core, 2):
@@ -245,6 +347,22 @@ def run_shard(desc):
                 nondet.append((list(ex.choices), str(ex.results)[:200], str(again.results)[:200]))
     st = sched.explore(h.run, h.check, bound, first_dev=first_dev, on_execution=on_execution,
                        max_executions=400000)
+    # second pass: two preemptions, both next to a line that writes watched shared state (conflict-directed; see make_watch).  quick: only
+    # where the number of such points keeps the pass small; thorough: every tuple explored at bound 1
+    HOT_LIMIT = 35 if tier == 'quick' else 120
+    if bound == 1 and not opcode and not st['failures'] and first_dev is None:
+        # the precompiled matches exist for this pass (short threads): they always get it
+        if h.hot_points and (h.hot_points <= HOT_LIMIT or all(o[0].startswith('cmatch') for o in ops)):
+            st2 = sched.explore(h.run, h.check, 2, on_execution=on_execution, max_executions=400000, hot_only=True)
+            res.count('schedules_two_preemptions_at_conflicts', st2['executions'])
+            res.count('tuples_with_conflict_pass', 1)
+            for k in ('executions', 'choice_points'):
+                st[k] += st2[k]
+            st['failures'] += st2['failures']
+            st['capped'] = st['capped'] or st2['capped']
+        elif h.hot_points:
+            res.count('tuples_without_conflict_pass', 1)
+    res.extra['writer_lines'] = len(h.hot)
     res.evaluations += st['executions']
     res.count('schedules', st['executions'])
     res.count('choice_points', st['choice_points'])
@@ -291,8 +409,11 @@ def check(tier, seed):
                  'executed over all schedules; every schedule is an execution of the real threads; non-trivial = operation tuples for which more than '
                  'two schedules exist; a fixed fraction of schedules is replayed a second time to confirm determinism'),
         'schedules': sch, 'replayed_twice': res.counters.get('replayed_twice', 0),
-        'operation_tuples': len(pairs(tier)), 'preemption_bound_completed': 1 if tier == 'quick' else '1 (all tuples), 2 (core compile pairs)',
+        'operation_tuples': len(pairs(tier)), 'preemption_bound_completed': ('1 (all tuples); 2 with both preemptions next to a line that writes watched shared state (tuples with <= 35 such points)' if tier == 'quick'
+                                                else '1 (all tuples); 2 next to writers of watched shared state (tuples with <= 120 such points); 2 unrestricted (core compile pairs)'),
         'threads': 2 if tier == 'quick' else '2 and 3', 'granularity': 'source line' if tier == 'quick' else 'source line; opcode inside tokenizer functions',
+        'schedules_two_preemptions_at_conflicts': res.counters.get('schedules_two_preemptions_at_conflicts', 0),
+        'tuples_with_conflict_pass': res.counters.get('tuples_with_conflict_pass', 0), 'tuples_without_conflict_pass': res.counters.get('tuples_without_conflict_pass', 0),
         'capped_explorations': res.counters.get('capped', 0), 'exhaustive': not info['cap_hit'] and not res.counters.get('capped', 0),
     }
     return {'result': res, 'coverage': cov, 'info': info,
